@@ -11,7 +11,9 @@ PROP = {
     "assumptions": [
         "strconv.ParseFloat is a parameter of the float constructor model (the driver supplies strconv's answer per string); strconv.ParseInt/ParseUint (base 0, 64 bit) are modelled in Gallina and compared on every string case",
         "binary64 ordering of finite values = (sign, magnitude bits) ordering; float64(int) exact for |int| <= 2^53; float32<->float64 conversions computed on bit patterns (NaN payloads as on amd64)",
-        "theorems about element counts carry length < 2^31 (the code stores the count in an int32)",
+        "theorems about element counts carry length < 2^31 (the code stores the count in an int32; C16_count_refuted shows the premise is necessary, known finding C16-count-int32)",
+        "bounds per byte size (-2^(8w-1), 2^(8w-1)-1, 2^(8w)-1) are computed inline inside type-switching Go functions, outside the translator's subset: tied by the differential at and beyond every bound for every Go type and both code paths (fast scalar path, combine*Values slow path)",
+        "externally implemented secs2.Item values and typed-nil built-in pointers are outside the quantifier (see report)",
     ],
 }
 
